@@ -26,6 +26,7 @@ CHECKS = {
     "C07": seq(["TestC07"]),
     "C08": seq(["TestC08Seq"]),
     "C09": seq(["TestC09Seq"]),
+    "C10": seq(["TestC10"], qchecks=14, tchecks=150, level="fault_enumeration"),
     "C11": seq(["TestC11"], qchecks=60, tchecks=1500),
     "C12": seq(["TestC12"], qchecks=80, tchecks=1200),
     "C13": seq(["TestC13", "TestC13Race"], qchecks=200, tchecks=4000, qshards=4),
